@@ -60,6 +60,7 @@ struct GenOpts {
     // swarm knobs, drawn per run by the scenario's generate(); all have defaults
     int max_wells = 6, max_steps = 8, max_actions = 2, max_udq = 2;
     int min_wells = 1;
+    bool late_edits = false;                // later blocks also carry WPIMULT, WSEGVALV (MSW wells), COMPDAT re-specification, WECON, WTEST on wells that exist since block 0
     bool reparent_groups = false;           // GRUPTREE records that move an existing group (later blocks: anywhere legal; action bodies: to FIELD)
     bool allow_msw = true, allow_history = true, allow_groups = true;
     bool restart_safe_conditions = false;   // ACTIONX conditions only over quantities a restart restores
@@ -117,6 +118,8 @@ Model generate_model(std::uint64_t seed, const GenOpts& o);
 // shrink support: drop lists are applied after generation
 void apply_drops(Model& m, const sim::Json& drops);
 std::string deck_text(const Model& m, const DeckOpts& d = {});
+// reach measure: how often each SCHEDULE keyword occurs in the model ("kw.<NAME>" in block 0, "kw.late.<NAME>" in later blocks, "kw.action.<NAME>" in ACTIONX bodies)
+void kw_histogram(const Model& m, std::map<std::string, long>& out);
 std::string month_name(int m);
 
 // calendar helpers (independent of the library)
